@@ -166,7 +166,9 @@ def _decide(obl: Obligation, budget: float, confirm: bool, tmpdir: str):
         stages = [("z3-5.1", min(3.0, budget))]
         confirm = False
     else:
-        stages = [("z3-5.1", min(5.0, budget)), ("cvc5-1.0.3", budget), ("z3-4.8.12", budget), ("z3-5.1", budget)]
+        # z3 5.1 first with the quick budget (it decides ~98 % of the obligations; one pin-cite window obligation needs ~8 s), then the others;
+        # a last z3 5.1 stage only when the budget is larger than the first stage's
+        stages = [("z3-5.1", min(10.0, budget)), ("cvc5-1.0.3", budget), ("z3-4.8.12", budget)] + ([("z3-5.1", budget)] if budget > 10.0 else [])
     decided = None
     for solver, t in stages:
         verdict, dt, out = _run(solver, path, t)
